@@ -17,6 +17,11 @@ func TestReferenceMatcher(t *testing.T) {
 		{"a?c", "sub/abc", true}, {"a?c", "templates/a-c", true},
 		{"/README.md", "README.md", true}, {"/README.md", "sub/README.md", false},
 		{"*.txt", "sub/notes.txt", true}, {"*.txt", "notes.txt.bak", false},
+		{`\.env`, ".env", true}, {`\.env`, "conf/.env", true}, {`\.env`, "secret.key", false},
+		{`secret\.key`, "secret.key", true}, {`secret\.key`, "secretXkey", false},
+		{`/private\.pem`, "private.pem", true}, {`/private\.pem`, "conf/private.pem", false},
+		{`conf/local\.yaml`, "conf/local.yaml", true}, {`conf/local\.yaml`, "other/conf/local.yaml", false},
+		{`\#scratch#`, "#scratch#", true}, {`\#scratch#`, "scratch#", false}, {"#scratch#", "#scratch#", false},
 		{"# comment", "abc", false}, {"", "abc", false},
 		{"", "templates/.hidden", true}, {"", "templates/sub/.hidden2", false},
 	} {
